@@ -5,6 +5,8 @@ See Also:
   - [eolib.protocol._generated.pub][]
 """
 
-from .server import *
-
+# NOTE: the generated package is star-imported first, so that `server` ends up bound to
+# eolib.protocol.pub.server and not to eolib.protocol._generated.pub.server.
 from .._generated.pub import *
+
+from .server import *
